@@ -522,6 +522,14 @@ def readOp (r : List Float) : Option (Op Float × List Float) :=
         let (o, r) ← oracle r
         some (Op.fk L (rev != 0) (prot != 0) o, r)
       | _ => none
+    | 11 => do
+      let (L, r) ← takeN 6 r
+      let (B, r) ← t4 r
+      match r with
+      | rev :: prot :: r => do
+        let (o, r) ← oracle r
+        some (Op.fkAt L B (rev != 0) (prot != 0) o, r)
+      | _ => none
     | 3 => do
       let (T, r) ← t4 r
       let (o, r) ← oracle r
